@@ -11,7 +11,9 @@ implementation side of this differential is rustc.  On every run
      violation whose replay is the probe.
 Query language (header -> case): send T | sync T  -> (20 1 0|1 type) ; outlive N -> (20 2 N) ;
 conflict N -> (20 3 N) ; sealed parent trait module supertrait -> (20 4 ..) ; safe-impl Tr ->
-(20 5 Tr) ; unsafe-impl Tr -> (20 6 Tr) ; valid -> (20 7) ; supertrait Tr Super -> (20 8 Tr Super) ; sealed-rhs .. -> (20 9 ..) ; sealed-open .. -> (20 10 ..).  Names are module-qualified as in
+(20 5 Tr) ; unsafe-impl Tr -> (20 6 Tr) ; valid -> (20 7) ; supertrait Tr Super -> (20 8 Tr Super) ; sealed-rhs .. -> (20 9 ..) ; sealed-open .. -> (20 10 ..) ;
+outlive-type T -> (20 11 type) ; conflict-type T -> (20 12 type)  (T a concrete type whose arguments may be references, e.g.
+TensorRange<f64, &Tensor<f64>>: rejected iff a value of that type stores a reference).  Names are module-qualified as in
 Gen/Types.v and travel as lists of character codes.  Types: f64, Cell (=Cell<f64>), Rc (=Rc<f64>),
 &T, &mut T, Vec<T>, RefCell<T>, (A, B), Name<args> (const and lifetime arguments omitted)."""
 import glob, hashlib, json, os, re, subprocess, time
@@ -26,7 +28,10 @@ TRUSTED = [
     "tools/gen_types.py (syntactic reader of struct/enum/type/trait/impl/mod/use items; unreadable types become TOpaque, "
     "which C20_translation_closed forbids)",
     "Model/AutoTraits.v as a model of rustc's auto-trait rules; rustc's borrow checker is not modelled beyond "
-    "'a value whose type carries &'a X cannot outlive or alias-mutably X' (probe predictions 2/3)",
+    "'a value whose type carries &'a X cannot outlive or alias-mutably X' (probe predictions 2/3 from `pins` for a declaration "
+    "with a lifetime parameter, 11/12 from `stores_ref` for a concrete type whose arguments are references)",
+    "the std auto-trait rules written into Model/AutoTraits.v (Cell/RefCell/UnsafeCell/OnceCell, Rc, Arc, Mutex, RwLock/OnceLock, "
+    "atomics, Vec/Box/Option/maps/sets); std types outside that list stay TOpaque and fail C20_translation_closed",
     "rustc (the implementation side of the probe differential) and its error codes",
 ]
 ASSUMPTIONS = [
@@ -127,6 +132,8 @@ def query_case(q, names):
     kind, rest = w[0], (w[1] if len(w) > 1 else "")
     if kind in ("send", "sync"):
         return sx([20, 1, 0 if kind == "send" else 1, TyParser(rest, decls, aliases).ty()])
+    if kind in ("outlive-type", "conflict-type"):
+        return sx([20, 11 if kind == "outlive-type" else 12, TyParser(rest, decls, aliases).ty()])
     if kind == "outlive":
         return sx([20, 2, codes(qualify(rest.strip(), decls))])
     if kind == "conflict":
